@@ -493,6 +493,20 @@ static void prof_robust(vh_rng_t *r, const vh_args_t *a)
           cfg_eff_free(&after);
           cfg_range_oracle(ch, "after ares_set_sortlist", &sys, reinit_done);
         }
+        if (vh_chance(r, 1, 4)) {
+          /* socket functions that cannot look interfaces up (both members are optional in the _ex table, absent
+           * in the classic one), then server lists and a re-read resolv.conf that name link-local servers by
+           * interface name and by index: such entries are unusable and are skipped */
+          static const char *const ll[] = { "fe80::1%lo", "[fe80::2%1]:53,1.2.3.4", "fe80::3%vpn0,fe80::4%2 9.9.9.9",
+                                            "dns://[fe80::5%25lo]:53?tcpport=54" };
+          (void)cfg_install_private_ifaces(ch, vh_chance(r, 1, 2) ? 2 : 3);
+          CNT("socket_functions_without_interface_lookups");
+          (void)(vh_chance(r, 1, 2) ? ares_set_servers_csv(ch, PICK(r, ll)) : ares_set_servers_ports_csv(ch, PICK(r, ll)));
+          if (vh_chance(r, 1, 2)) {
+            (void)cfg_reinit_await(ch);
+          }
+          cfg_range_oracle(ch, "after link-local servers without interface lookups", &sys, 1);
+        }
         if (junked & (1u << RT_CSV_STR) || vh_chance(r, 1, 4)) {
           size_t k;
           switch (vh_below(r, 3)) {
